@@ -73,6 +73,52 @@ theorem mutation_nodes_kept (E : Env α) (hsort : ∀ t, SortRel t (E.sort t))
   refine (stageTskit_key _ keyOK_key1 hsort htimes h8).trans ?_
   rw [stageCols_key _ keyOK_key1 h5 (by rw [hnode, s3.2.2.1]), s3.2.1]
 
+/-- **In general (also for unphased singletons) the output's mutation nodes are exactly
+`result.mutation_node`, mutation by mutation**: the multiset of (site, node, derived state) of the
+output is the input's mutations with the node of mutation `i` replaced by `mutation_node[i]`. -/
+theorem mutation_nodes_are_result (E : Env α) (hsort : ∀ t, SortRel t (E.sort t))
+    (htimes : ∀ t, TimesRel t (E.computeTimes t)) (o : Options)
+    (t0 : TableCollection α) (r : Results α) (out : TableCollection α) (tr : Trace)
+    (h : getModifiedTs E o t0 r = some (out, tr)) :
+    (out.mutations.map MutRow.key1).Perm
+      (List.zipWith (fun (m : MutRow α) n => (m.site, n, m.derivedState)) t0.mutations r.mutationNode) := by
+  obtain ⟨t3, t5, t8, h3, h5, h8, rfl⟩ := getModifiedTs_some h
+  have s3 := stageMd_spec h3
+  rw [(stageProv_frame E o t8).2]
+  refine (stageTskit_key _ keyOK_key1 hsort htimes h8).trans ?_
+  unfold stageCols at h5
+  simp only [Option.bind_eq_some_iff] at h5
+  obtain ⟨ns, hns, ms, hms, h5⟩ := h5
+  obtain ⟨lm, rfl⟩ := setCol?_some _ _ _ _ hms
+  simp only [Option.some.injEq] at h5
+  subst h5
+  show (List.map MutRow.key1 (List.map _ (setCol MutRow.setNode t3.mutations r.mutationNode))).Perm _
+  rw [List.map_map]
+  have hz : ∀ (rows rows0 : List (MutRow α)) (vals : List Nat),
+      rows.map MutRow.key1 = rows0.map MutRow.key1 →
+      List.map (MutRow.key1 ∘ fun row : MutRow α => (row.setTime E.unknownTime).setParent (-1))
+        (setCol MutRow.setNode rows vals) =
+      List.zipWith (fun (m : MutRow α) n => (m.site, n, m.derivedState)) rows0 vals := by
+    intro rows
+    induction rows with
+    | nil => intro rows0 vals h; cases rows0 <;> simp_all [setCol]
+    | cons x xs ih =>
+      intro rows0 vals h
+      cases rows0 with
+      | nil => simp at h
+      | cons y ys =>
+        cases vals with
+        | nil => simp [setCol]
+        | cons v vs =>
+          simp only [List.map_cons, List.cons.injEq] at h
+          have := ih ys vs h.2
+          simp only [setCol, List.zipWith_cons_cons, List.map_cons] at this ⊢
+          rw [this]
+          have hx : x.site = y.site ∧ x.derivedState = y.derivedState := by
+            have := h.1; simp only [MutRow.key1, Prod.mk.injEq] at this; exact ⟨this.1, this.2.2⟩
+          simp [MutRow.key1, MutRow.setNode, MutRow.setTime, MutRow.setParent, hx.1, hx.2]
+  rw [hz _ _ _ s3.2.1]
+
 /-- The same, site by site: at every site the mutations carry the same multiset of
 (site, node, derived state) before and after (mutation *ids* within a site may be permuted). -/
 theorem mutation_nodes_kept_per_site (E : Env α) (hsort : ∀ t, SortRel t (E.sort t))
